@@ -103,7 +103,7 @@ def t_timed_post(kind):
             j = z3.Int('j!tp')
             c.prove('%s:timed/other-sources-still-tracked' % mname,
                     z3.ForAll([j], z3.Implies(z3.And(0 <= j, j < n0), P1.at(j) == z3.Select(items0, j))),
-                    tags=('C10', 'C31'))
+                    tags=('C10', 'C31', 'C11', 'C12'))
             # ---- now the thread body itself, on the virtual clock, assuming nobody else clears this source's flag
             c.pyghost['runner'] = {'d0': d_exp, 'period': p.e, 'kind': sval(c.to_ref(rd('queue_type'))), 'event': e.e,
                                    'n': n_exp}
@@ -123,7 +123,7 @@ def t_timed_post(kind):
             c.cover('%s:timed/cover-finished' % mname)
         else:
             c.prove('%s:rejected/raises-out-of-resources' % mname,
-                    out.raised == 'ActiveObjectOutOfPostedEventResources', tags=('C31',))
+                    out.raised == 'ActiveObjectOutOfPostedEventResources', tags=('C31', 'C11'))
             c.prove('%s:rejected/no-timer-thread-was-started' % mname, len(started) == 0, tags=('C31',))
             P1 = view(it, P)
             j = z3.Int('j!tp')
